@@ -887,6 +887,8 @@ func runC07(r *Run) {
 	ruleLineSpan(r, "R07.12")
 	r.floor("R07.13", 14)
 	ruleDrainLoopsConnect(r, "R07.13")
+	r.floor("R07.26", 15)
+	ruleExitFlagCleared(r, "R07.26")
 	r.floor("R07.24", 15)
 	ruleFlushResetsCoroutines(r, "R07.24")
 	r.floor("R07.25", 15)
